@@ -146,6 +146,36 @@ def per_start(item):
             'sample': {'start_date': str(d0), 'ranges': n, 'events': nev}}
 
 
+ENV_ZONES = ['Asia/Tokyo', 'America/New_York', 'Europe/London', 'Pacific/Kiritimati']
+ENV_STARTS = [datetime.date(2020, 1, 13), datetime.date(2020, 3, 27), datetime.date(2020, 7, 6), datetime.date(2020, 10, 30)]
+
+
+def env_items(tier):
+    ns = (0, 1, 4, 9) if tier == 'quick' else tuple(range(0, 10))
+    return [(z, d.toordinal(), ns) for z in ENV_ZONES for d in ENV_STARTS]
+
+
+def per_env_start(item):
+    """the same enumeration in a process whose LOCAL time zone is not UTC"""
+    z, o, ns = item
+    with rm.process_tz(z):
+        out = per_start((o, ns))
+    for v in out['viols']:
+        v['case'] = dict(v.get('case', {}), process_tz=z)
+    out['counters'] = dict(out.get('counters', {}), ranges_in_other_process_zones=out['counters'].get('ranges', 0))
+    return out
+
+
+def future_items(tier):
+    """windows after the day the check runs (nothing the clock emits may depend on the wall clock): one straddling
+    today, one far ahead"""
+    today = datetime.date.today()
+    ns = (0, 1, 4, 9, 30) if tier == 'quick' else tuple(range(0, 10)) + (30, 61)
+    starts = [today + datetime.timedelta(days=k) for k in (-12, -3, -1, 0, 1, 2, 5)]
+    starts += list(rm.daterange(datetime.date(2090, 2, 24), datetime.date(2090, 3, 3)))
+    return [(d.toordinal(), ns) for d in starts]
+
+
 def run(tier, res, is_known):
     its = calendar_items(tier)
     res.rule = ('every start date of the window x range lengths n x start time {00:00, 09:15, 14:30} x end time {same, '
@@ -159,6 +189,10 @@ def run(tier, res, is_known):
     if any(not is_known(v) for v in res.violations):
         return
     product(per_long_start, long_items(tier), res, is_known, label='ranges of 1-3 years', chunk=1)
+    if any(not is_known(v) for v in res.violations):
+        return
+    product(per_env_start, env_items(tier), res, is_known, label='process-local time zone other than UTC', chunk=1)
+    product(per_start, future_items(tier), res, is_known, label='windows around and after the day of the run', chunk=2)
     res.transitions = res.extra.get('clock_events_checked', 0)
     res.states = res.extra.get('ranges', 0)
     shapes = res.extra.pop('shapes', set())
@@ -167,6 +201,9 @@ def run(tier, res, is_known):
 
 
 def replay(case):
+    if case.get('process_tz'):
+        with rm.process_tz(case['process_tz']):
+            return replay({k: v for k, v in case.items() if k != 'process_tz'})
     start, end = pd.Timestamp(case['start']), pd.Timestamp(case['end'])
     if case.get('reversed'):
         return check_reversed(start, end)
